@@ -489,13 +489,12 @@ def check_case(ctx, model, case, origin="gen"):
     if nbad:
         return nbad
     if case.get("barrier"):
-        ctx.count("run:skipped(non-quadratic loss)")
-        return nbad
+        ctx.count("run:non-quadratic loss (log barrier)")
     try:
         out = model.call(
             "run", Q=[common.fs2b(row) for row in case["Q"]], b=common.fs2b(case["b"]), c=f2b(case["c"]), g=case["g"],
             gw=f2b(case["gw"]), x0=common.fs2b(case["x0"]), L0=f2b(case["L0"]), policy=_policy_wire(pol),
-            accel=bool(case["accel"]), steps=int(case["steps"]),
+            accel=bool(case["accel"]), steps=int(case["steps"]), **({"barrier": f2b(case["barrier"])} if case.get("barrier") else {}),
         )
     except ModelErr as e:
         raise common.Infra(f"model run rejected a case: {e.kind}")
@@ -1127,26 +1126,89 @@ def findings(ctx, model):
 def search(ctx, model, why):
     """failing-input search on the implementation alone (thorough tier): the property oracle on fresh runs"""
     common.setup_scico()
+    kinds = None
     if why is not None:
-        # a generated obligation no longer checks (the source differs from the model's tables): look for an input on which
-        # the property itself fails — crafted boundary cases, the exhaustive stub patterns, then fresh random runs (any tier)
+        # a generated obligation no longer checks (the source differs from the model's tables): find WHICH rows differ and
+        # exercise exactly those functions — crafted boundary cases and random runs of the policies concerned, their exhaustive
+        # stub streams, re-attachment, complex / scaled / barrier problems — with the property oracles (any tier)
+        changed = stepsize_translate.changed_keys()
+        ctx.extra["changed_source_rows"] = changed
+        print("search: source rows that differ from the model's tables:", changed, flush=True)
+        cls_of = {"PGMStepSize": "base", "BBStepSize": "bb", "AdaptiveBBStepSize": "abb", "LineSearchStepSize": "ls", "RobustLineSearchStepSize": "rls"}
+        kinds = set()
+        for k in changed:
+            hit = [v for c, v in cls_of.items() if (":" + c + ".") in k or k == "class:" + c]
+            kinds.update(hit if hit else cls_of.values())  # PGM / AcceleratedPGM methods, dispatch: every policy
+        if "ls" in kinds:
+            kinds.add("rls")  # the robust class inherits from the line search
+        kinds = kinds or set(cls_of.values())
+        accel_only = bool(changed) and all("AcceleratedPGM" in k or k == "dispatch" for k in changed)
         for case in G.crafted_cases():
-            r = oracle(case)
-            if r is not None:
-                return {"case": _light(case), "failing": r}
+            if case["policy"]["kind"] in kinds and (case["accel"] or not accel_only):
+                r = oracle(case)
+                if r is not None:
+                    return {"case": _light(case), "failing": r, "changed_rows": changed}
         import itertools
 
-        for maxiter in range(0, 4):
-            for acc in itertools.product([False, True, None], repeat=maxiter):
-                for kind in ("ls", "rls"):
-                    c = {"what": "stub-search", "kind": kind, "L": 3.0, "gu": 2.0, "gd": 0.5, "maxiter": maxiter, "accepts": list(acc)}
-                    r = _oracle_stub_search(c)
-                    if r is not None:
-                        return {"case": c, "failing": r}
-    for _ in range(ctx.n(0, 150) if why is None else 60):
+        if kinds & {"ls", "rls"}:
+            for maxiter in range(0, 4):
+                for acc in itertools.product([False, True, None], repeat=maxiter):
+                    for kind in sorted(kinds & {"ls", "rls"}):
+                        c = {"what": "stub-search", "kind": kind, "L": 3.0, "gu": 2.0, "gd": 0.5, "maxiter": maxiter, "accepts": list(acc)}
+                        r = _oracle_stub_search(c)
+                        if r is not None:
+                            return {"case": c, "failing": r, "changed_rows": changed}
+        if kinds & {"bb", "abb"}:
+            # special-value steps through the real objects: L must stay finite positive, BB must be ratio-or-previous
+            import scico.numpy as snp
+            from scico.optimize.pgm import AdaptiveBBStepSize, BBStepSize
+
+            vecs = [np.array(p_, dtype=np.float64) for p_ in itertools.product(_GRID, repeat=2)]
+            with np.errstate(all="ignore"):
+                for kind in sorted(kinds & {"bb", "abb"}):
+                    for dx in vecs[::3]:
+                        for dg in vecs[1::3]:
+                            pol = BBStepSize() if kind == "bb" else AdaptiveBBStepSize(kappa=0.5)
+                            pgm = _StubPGM(1.0)
+                            pol.internal_init(pgm)
+                            L = None
+                            for v, g in ((np.zeros(2), np.zeros(2)), (dx, dg)):
+                                pgm.f.next_grad = snp.array(g)
+                                L = float(pol.update(snp.array(v)))
+                            xg, gg = float(dx @ dg), float(dg @ dg)
+                            r2 = float(np.float64(gg) / np.float64(xg))
+                            want = r2 if G.finite_pos(r2) else 1.0
+                            c = {"what": "stub-grid", "kind": kind, "dx": dx.tolist(), "dg": dg.tolist()}
+                            if not (math.isfinite(L) and L > 0):
+                                return {"case": c, "failing": {"why": "returned L is not a finite positive number", "L": L}, "changed_rows": changed}
+                            if kind == "bb" and not _same(L, want):
+                                return {"case": c, "failing": {"why": "BB: L is neither the documented ratio nor the previous value", "L": L, "documented_ratio": r2},
+                                        "changed_rows": changed}
+        # re-attachment, scaled, complex real-view and barrier problems for the policies concerned
+        for i in range(24):
+            pol = G.gen_policy(ctx.rng, sorted(kinds)[i % len(kinds)])
+            if pol.get("maxiter") == 0:
+                pol["maxiter"] = 3
+            first = {**G.gen_problem(ctx.rng, "diag-pos"), "accel": bool(i % 2), "steps": 3}
+            second = {**G.gen_problem(ctx.rng, "dense-psd"), "accel": bool((i // 2) % 2) or accel_only, "steps": 4}
+            c = {"what": "reuse", "policy": pol, "first": first, "second": second}
+            r = oracle_reuse(c)
+            if r is not None:
+                return {"case": c, "failing": r, "changed_rows": changed}
+            base = {**G.gen_problem(ctx.rng, ["complex-rv", "diag-indef", "dense-psd"][i % 3]), "policy": pol, "accel": bool(i % 2) or accel_only, "steps": 6}
+            sc = G.scaled_case(base, [-40, 30][i % 2])
+            r = oracle_scale({**_light(sc), "scale_base": _light(base)})
+            if r is not None:
+                return {"case": {**_light(sc), "scale_base": _light(base)}, "failing": r, "changed_rows": changed}
+            if pol["kind"] in ("ls", "rls", "bb", "abb"):
+                bc = {**G.gen_barrier_problem(ctx.rng), "policy": pol, "accel": bool(i % 2) or accel_only, "steps": 4}
+                r = oracle(bc)
+                if r is not None:
+                    return {"case": _light(bc), "failing": r, "changed_rows": changed}
+    for j in range(ctx.n(0, 150) if why is None else 80):
         p = G.gen_problem(ctx.rng)
-        pol = G.gen_policy(ctx.rng)
-        case = {**p, "policy": pol, "accel": bool(ctx.rng.integers(0, 2)), "steps": int(ctx.rng.integers(2, 12))}
+        pol = G.gen_policy(ctx.rng, None if kinds is None else sorted(kinds)[j % len(kinds)])
+        case = {**p, "policy": pol, "accel": bool(ctx.rng.integers(0, 2)) or (why is not None and accel_only), "steps": int(ctx.rng.integers(2, 12))}
         ctx.count("search:oracle-runs")
         r = oracle(case)
         if r is not None:
